@@ -83,6 +83,8 @@ class PyTarget:
             o = self.build(t, v)
         except ValueError:
             return "reject", b""
+        except Exception as e:  # pylint: disable=broad-except
+            return "reject:" + type(e).__name__, b""  # e.g. OverflowError from a wrong NumPy dtype: a refusal, not a harness fault
         try:
             return "ok", b"".join(bytes(x) for x in self.ns.serialize(o))
         except Exception as e:  # pylint: disable=broad-except
